@@ -28,6 +28,7 @@ func checkC11(c *Ctx) {
 		"C11.retain: a decoder keeps no sub-slice of its byte-slice input in the decoded object (directly, or through golang.org/x/crypto/cryptobyte's aliasing readers) unless it re-binds the field to a private copy before returning: otherwise later results depend on later writes to the caller's buffer, and in-place updates of the object write into it",
 		"C11.append: the built-in append is applied to (a view of) a slice parameter only in append-style functions (name starts with append/Append, or hash.Hash's Sum): elsewhere it may write into the caller's buffer beyond its length; the result of appending to a slice held in a field is stored back into that field",
 		"C11.innerptr: no method or constructor stores the address of a field of one key object into another object it hands out (a public key pointing into the private key changes when the private key is re-decoded in place)",
+		"C11.sharedptr / reader / noglobalwrite: an exported accessor hands out a pointer kept in its receiver only if the pointee type has no receiver-writing method; a function handed an io.Reader uses it; no exported function writes a package-level variable outside initialisation and sync.Once",
 		"C11.fresh: a decoder writes through a pointer held in a field of its receiver only after assigning that field itself on every path, so it cannot overwrite an object shared with another value")
 	c.NotDec = append(c.NotDec, "replay equivalence over call histories", "absence of data races in general (only the no-write-on-read-path condition)", "goroutine interleavings")
 
@@ -109,6 +110,8 @@ func checkC11(c *Ctx) {
 	checkC11InnerPtr(c, p)
 	checkC11SharedPtr(c, p)
 	checkC11Reader(c, p)
+	checkC11GlobalWrite(c, p)
+	checkC11OutputDefined(c, p)
 }
 
 // sharedSource: v is (derived from) a package-level variable or crypto/elliptic's shared CurveParams.
@@ -973,5 +976,163 @@ func checkC11Reader(c *Ctx, p *Program) {
 	}
 	if nbad == 0 {
 		c.ok("C11.reader", "every function handed an io.Reader uses it as its source of randomness", fmt.Sprintf("%d parameters inspected; %d belong to crypto.Signer.Sign of deterministic schemes, which must ignore it", n, nexc), "")
+	}
+}
+
+// checkC11GlobalWrite: outside package initialisation no exported function writes a package-level
+// variable without synchronisation (precomputed tables and parameters are shared by all callers).
+func checkC11GlobalWrite(c *Ctx, p *Program) {
+	exceptions := map[string]string{
+		"dh/sidh/internal/common.Register": "called only from the init functions of the parameter packages",
+	}
+	mod := p.Mod()
+	var fs []*ssa.Function
+	for f := range p.AllFuncs {
+		if f.Blocks == nil || !isCirclFunc(f) || f.Synthetic != "" || f.Parent() != nil || f.Name() == "init" || strings.HasPrefix(f.Name(), "init#") {
+			continue
+		}
+		if f.Object() == nil || !f.Object().Exported() {
+			continue
+		}
+		fs = append(fs, f)
+	}
+	sort.Slice(fs, func(i, j int) bool { return fs[i].String() < fs[j].String() })
+	nbad := 0
+	for _, f := range fs {
+		var ws []string
+		for _, w := range mod.of(f) {
+			if strings.HasPrefix(w.Root, "global:") && !w.Sync && !strings.Contains(w.Root, "init$guard") {
+				ws = append(ws, fmt.Sprintf("%s written at %s (%s)", strings.TrimPrefix(w.Root, "global:"), p.pos(w.Pos), w.Via))
+			}
+		}
+		if len(ws) == 0 {
+			continue
+		}
+		construct := fname(f) + ": writes no package-level variable"
+		if why, ok := exceptions[fname(f)]; ok {
+			c.ok("C11.noglobalwrite", construct, "exception: "+why, p.fnPos(f))
+			continue
+		}
+		nbad++
+		sort.Strings(ws)
+		if len(ws) > 3 {
+			ws = append(ws[:3], fmt.Sprintf("… %d more", len(ws)-3))
+		}
+		c.bad("C11.noglobalwrite", construct, strings.Join(ws, "; "), p.fnPos(f))
+	}
+	c.count("globalwrite_functions", len(fs))
+	if len(fs) < 1000 {
+		c.undecided("C11.noglobalwrite", "exported functions", fmt.Sprintf("only %d enumerated (floor 1000)", len(fs)), "")
+	}
+	if nbad == 0 {
+		c.ok("C11.noglobalwrite", "no exported function writes a package-level variable outside initialisation and sync.Once", fmt.Sprintf("%d exported functions and methods inspected (mod-sets through circl callees, assembly routines write their destination argument)", len(fs)), "")
+	}
+}
+
+// checkC11OutputDefined: a function that generates into a caller-supplied object (a declared output)
+// gives the same result for a used object as for a fresh one: every field of the output that the
+// function reads is first assigned by an instruction that does not read it (a reset, a plain store),
+// and that instruction dominates all the readers.
+func checkC11OutputDefined(c *Ctx, p *Program) {
+	type out struct {
+		pkg, name string
+		idx       int
+	}
+	// (GeneratePrivateKey zeroes its output element by element in a loop: that needs an argument about
+	// the whole range of the loop and is not decided here)
+	for _, o := range []out{{"dh/csidh", "GeneratePublicKey", 0}} {
+		f := p.Func(o.pkg, "", o.name)
+		what := fmt.Sprintf("%s.%s: the output object (parameter %d) is defined before it is read", o.pkg, o.name, o.idx)
+		if f == nil || o.idx >= len(f.Params) {
+			c.undecided("C11.outputdefined", what, "anchor does not resolve", "")
+			continue
+		}
+		par := f.Params[o.idx]
+		whole := fieldsUsed(p, f, o.idx)
+		if len(whole.reads) == 0 {
+			c.ok("C11.outputdefined", what, fmt.Sprintf("no field of %s is read (fields written: %v)", par.Name(), keysOf(whole.write)), p.fnPos(f))
+			continue
+		}
+		// per instruction of f: which fields of the output it reads / purely writes
+		type acc struct {
+			in     ssa.Instruction
+			reads  map[string]bool
+			writes map[string]bool
+		}
+		var accs []acc
+		u0 := &fieldUse{p: p}
+		for _, b := range f.Blocks {
+			for _, in := range b.Instrs {
+				switch x := in.(type) {
+				case *ssa.FieldAddr:
+					if !u0.isParamVal(f, par, x.X) {
+						continue
+					}
+					u := &fieldUse{p: p, reads: map[string]bool{}, write: map[string]bool{}, seen: map[string]bool{}}
+					rd, wr := u.classify(f, x, 0)
+					a := acc{in: in, reads: map[string]bool{}, writes: map[string]bool{}}
+					if rd {
+						a.reads[fieldName(x)] = true
+					}
+					if wr {
+						a.writes[fieldName(x)] = true
+					}
+					accs = append(accs, a)
+				case ssa.CallInstruction:
+					c0 := x.Common()
+					var args []ssa.Value
+					if c0.IsInvoke() {
+						args = append(args, c0.Value)
+					}
+					args = append(args, c0.Args...)
+					for j, a := range args {
+						if !u0.isParamVal(f, par, a) {
+							continue
+						}
+						cal := c0.StaticCallee()
+						if cal == nil || cal.Blocks == nil {
+							continue
+						}
+						fu := fieldsUsed(p, cal, j)
+						accs = append(accs, acc{in: in, reads: fu.reads, writes: fu.write})
+					}
+				}
+			}
+		}
+		var bad []string
+		for n := range whole.reads {
+			// a defining instruction: writes n without reading it
+			var def ssa.Instruction
+			for _, a := range accs {
+				if a.writes[n] && !a.reads[n] {
+					ok := true
+					for _, r := range accs {
+						if r.reads[n] && r.in != a.in && !instrDominates(a.in, r.in) {
+							ok = false
+						}
+					}
+					if ok {
+						def = a.in
+						break
+					}
+				}
+			}
+			if def == nil {
+				var rs []string
+				for _, r := range accs {
+					if r.reads[n] {
+						rs = append(rs, p.pos(r.in.Pos()))
+					}
+				}
+				sort.Strings(rs)
+				bad = append(bad, fmt.Sprintf("field %s of %s is read (%s) without having been assigned by this call first", n, par.Name(), strings.Join(uniq(rs), ", ")))
+			}
+		}
+		sort.Strings(bad)
+		if len(bad) > 0 {
+			c.bad("C11.outputdefined", what, strings.Join(bad, "; "), p.fnPos(f))
+		} else {
+			c.ok("C11.outputdefined", what, fmt.Sprintf("fields read %v are each assigned first by an instruction that does not read them", keysOf(whole.reads)), p.fnPos(f))
+		}
 	}
 }
